@@ -90,7 +90,7 @@ def check_one(ctx, res, seed, stats, samples):
             if probs:
                 data = dict(kind="property-violated", root=C.rust_ty(t), file=os.path.relpath(p, root), content=text, problems=probs,
                             definition=C.to_rust(by[t[1]]), seed=seed)
-                cls = classify(probs, text, res, by)
+                cls = classify(probs, text, res, by, t)
                 if cls:
                     ctx.known_class(cls, "%s: %s" % (C.rust_ty(t), probs[0]), data)
                 else:
@@ -154,7 +154,7 @@ def check_one(ctx, res, seed, stats, samples):
                 if probs:
                     data = dict(kind="property-violated", what="history", history=dict(export_alone=[C.rust_ty(qs[i]) for i in alone], then_export_all=C.rust_ty(qs[r])),
                                 root=C.rust_ty(qs[r]), file=pth, content=text, problems=probs, definition=C.to_rust(by[qs[r][1]]), seed=seed)
-                    cls = classify(probs, text or "", res, by)
+                    cls = classify(probs, text or "", res, by, qs[r])
                     if cls:
                         ctx.known_class(cls, "%s: %s" % (C.rust_ty(qs[r]), probs[0]), data)
                     else:
@@ -168,11 +168,30 @@ def check_one(ctx, res, seed, stats, samples):
             first=mism[0], count=len(mism), seed=seed), no_input=True)
 
 
-def classify(probs, text, res, by):
-    """known classes of C03 (known_findings.json); decided from the problem kind and the declaring definitions"""
-    if all("is imported but not used" in p for p in probs):
-        # an inlined/flattened generic type with a defaulted parameter drags its default along
-        gens = [d for d in res["defs"] if any(dflt is not None for _, dflt in d["params"])]
-        if gens:
+def named_in(ty, out):
+    """identifiers of the derived types a (corpus) type expression mentions"""
+    if isinstance(ty, (list, tuple)):
+        if len(ty) >= 2 and ty[0] == "named":
+            out.add(ty[1])
+        for x in ty:
+            named_in(x, out)
+    return out
+
+
+def classify(probs, text, res, by, root):
+    """known classes of C03 (known_findings.json); decided from the problem kind and the definitions reachable from the root whose
+    export wrote the file: an unused import is in the known class only if it names the default of a type parameter of a generic
+    definition reachable from that root (an inlined / flattened generic drags its defaults along)"""
+    import re
+    from props.c01 import reach
+    if probs and all("is imported but not used" in p for p in probs):
+        unused = {m.group(1) for p in probs for m in [re.match(r"type (\S+) is imported but not used", p)] if m}
+        defaults = set()
+        for d in reach(by, root):
+            for _, dflt in d["params"]:
+                if dflt is not None:
+                    for ident in named_in(dflt, set()):
+                        defaults.add((by[ident].get("rename") or ident) if ident in by else ident)
+        if unused and unused <= defaults:
             return "inlined_generic_default"
     return None
